@@ -27,6 +27,7 @@ from . import C05
 EXPLANATION = ("Header layout from rustc's layout; each emitting operation's header aggregate and the credit predicate are recovered as "
                "guarded expressions and folded over enumerated counter values including post-wrap values; the ring buffer's copy ranges "
                "are folded for all small capacities and compared with modular indexing.")
+CONFIGS = ['def', 'alloc', 'def-rel']    # these drivers need the `alloc` feature
 FLOORS = {'emitting_ops': 6, 'credit_rows': 100, 'ring_rows': 300}
 SOCK = 'device::socket::vsock::VirtIOSocket'
 HDR_OFFS = {'src_cid': 0, 'dst_cid': 8, 'src_port': 16, 'dst_port': 20, 'len': 24, 'socket_type': 28, 'op': 30, 'flags': 32, 'buf_alloc': 36, 'fwd_cnt': 40}
